@@ -328,6 +328,18 @@ int main() {
           emit(s, cmd, "err " + errKind(e.what()));
         }
       }
+      else if (cmd == "join" || cmd == "separate" || cmd == "joinsep") {
+        Body a = parseBody(t); SpatialTransform X = t.xt(); Body b = parseBody(t);
+        try {
+          if (cmd == "join") a.Join(X, b);
+          else if (cmd == "separate") a.Separate(X, b);
+          else { a.Join(X, b); a.Separate(X, b); }
+          Out o; o.str("ok"); o.num(a.mMass); o.v3(a.mCenterOfMass); o.m3(a.mInertia);
+          emit(s, cmd, o.os.str());
+        } catch (Errors::RBDLError &e) {
+          emit(s, cmd, "err " + errKind(e.what()));
+        }
+      }
       else if (cmd == "dump") emit(s, cmd, dumpModel(*s.m));
       else if (cmd == "params") emit(s, cmd, dumpParams(*s.m));
       else if (cmd == "getparent") emit(s, cmd, std::to_string(s.m->GetParentBodyId(t.nat())));
